@@ -5,7 +5,7 @@ CLUSTERS = {
     "vals": {"extract": "ExtractVals.v", "ml": "model_vals", "entry": "main_vals"},
     "url": {"extract": "ExtractUrl.v", "ml": "model_url", "entry": "main_url"},
     "codec": {"extract": "ExtractCodec.v", "ml": "model_codec", "entry": "main_codec", "ops": ["norm"]},
-    "expand": {"extract": "ExtractExpand.v", "ml": "model_expand", "entry": "main_expand"},
+    "expand": {"extract": "ExtractExpand.v", "ml": "model_expand", "entry": "main_expand", "ops": ["expand_spec"]},
     "valid": {"extract": "ExtractValid.v", "ml": "model_valid", "entry": "main_valid"},
 }
 
@@ -181,5 +181,26 @@ PROPS = {
                       "preservation theorems are per-kind lemmas, not the whole-document theorem.",
         "technique": "Coq lemmas about a transcribed meta-schema + differential run against python jsonschema + validation of the implementation's outputs",
         "assumptions": ["format keywords are not enforced (python's default)", "references are well-founded: local, to an existing element of the section that fits the position"],
+    },
+    "C05": {
+        "props": "theories/Props/C05.v", "gens": [("tables", "Codec/Gen_Tables.v")], "cluster": "expand", "gen": "expand", "ops": ["resolve"],
+        "oracle_cmd": ["python3", "{root}/tools/c05_oracle.py", "--seed", "{seed}", "--n", "{n}", "--harness", "{harness}", "--model", "{root}/.work/bin/model_codec", "--out", "{out}", "--work", "{root}/.work/runs/C05"],
+        "replay_cmd": ["python3", "{root}/tools/c05_oracle.py", "--replay", "{path}", "--harness", "{harness}", "--model", "{root}/.work/bin/model_codec", "--out", "{out}", "--work", "{root}/.work/runs/C05"],
+        "needs_models": ["codec"],
+        "n": {"quick": 60, "thorough": 600}, "oracle_n": {"quick": 60, "thorough": 600},
+        "rule": "correspondence: Resolve{Ref,Parameter,Response,PathItem,Items}WithBase on every referable position of generated multi-document "
+                "graphs through every spelling of its pointer (raw, ~-escaped, percent-escaped), targets in root/sibling/sub/parent-directory "
+                "documents and absolute URLs, dangling documents and pointers, three ways of supplying the root (typed, generic, location): "
+                "error flag and result compared with the model's resolve; oracle: an independent reading of 'designated' (RFC 3986 via urllib, "
+                "RFC 6901 pointer) decoded by the extracted codec model; the three roots must agree; non-trivial: all; distinct = (graph, ref, kind)",
+        "trusted_base": COMMON_TB + ["Expand/Expand.v: resolve / load / ptr_get transcribed from resolveRef, load and jsonpointer v0.21.1",
+                                     "tools/c05_oracle.py (urllib's RFC 3986 join, a 15-line RFC 6901 evaluator)"],
+        "level_text": "Coq theorems (Props/C05.v): a successful resolution is the typed decoding of exactly the object the pointer designates in the "
+                      "document normalizeURI designates — never a value for a missing or non-object target; the way the root is supplied cannot "
+                      "matter for references with a URI part; ~0/~1 escaping is undone exactly; resolution needs no fuel. The model's resolve agrees "
+                      "with the implementation on thousands of (graph, ref, kind, root mode) cases per run.",
+        "level_note": "Partial: equality of typed-root lookups (JSONLookup) with generic lookups is property C15; it is assumed here. F13 (ResolveRef on a typed root at union positions) is an open finding.",
+        "technique": "Coq proof about the resolver model + differential run + independent oracle",
+        "assumptions": ["the typed root is observed through its JSON encoding (C15)"],
     },
 }
